@@ -13,14 +13,17 @@ INF = math.inf
 
 
 class AV:
-    __slots__ = ("lo", "hi", "kind", "member", "size", "note", "esize", "opaque")
+    __slots__ = ("lo", "hi", "kind", "member", "size", "note", "esize", "opaque", "items", "text", "parts")
 
-    def __init__(self, lo=-INF, hi=INF, kind="unknown", member=None, size=None, note="", esize=None, opaque=False):
+    def __init__(self, lo=-INF, hi=INF, kind="unknown", member=None, size=None, note="", esize=None, opaque=False, items=None, text=None, parts=None):
         self.lo, self.hi, self.kind, self.member, self.size, self.note, self.esize = lo, hi, kind, member, size, note, esize
         self.opaque = opaque     # produced by a construct the analysis does not model (as opposed to an unclamped request)
+        self.items = items       # element values of a tuple/list display (for unpacking and *args)
+        self.text = text         # a string literal (a command template passed to a helper)
+        self.parts = parts       # a command string built from literal text and interpolated values
 
     def copy(self, **kw):
-        a = AV(self.lo, self.hi, self.kind, self.member, self.size, self.note, self.esize, self.opaque)
+        a = AV(self.lo, self.hi, self.kind, self.member, self.size, self.note, self.esize, self.opaque, self.items, self.text, self.parts)
         for k, v in kw.items():
             setattr(a, k, v)
         return a
@@ -46,7 +49,9 @@ def hull(a: AV, b: AV):
     member = (a.member | b.member) if (a.member is not None and b.member is not None) else None
     size = hull(a.size, b.size) if (a.size is not None and b.size is not None) else None
     esize = hull(a.esize, b.esize) if (a.esize is not None and b.esize is not None) else None
-    return AV(min(a.lo, b.lo), max(a.hi, b.hi), kind, member, size, "", esize, a.opaque or b.opaque)
+    items = [hull(x, y) for x, y in zip(a.items, b.items)] if (a.items is not None and b.items is not None and len(a.items) == len(b.items)) else None
+    text = a.text if (a.text is not None and a.text == b.text) else None
+    return AV(min(a.lo, b.lo), max(a.hi, b.hi), kind, member, size, "", esize, a.opaque or b.opaque, items, text)
 
 
 TOP = AV()
@@ -68,6 +73,7 @@ class IntervalInterp:
         self.query_names = query_names
         self.branch_info = []           # (if node, has_clip, has_warn, has_raise)
         self.returns = []               # AV of every returned value
+        self.local_funcs = {}           # nested defs of the function under analysis (closures): name -> FunctionDef
 
     # ------------------------------------------------------------------ entry
     def run(self, fnode: ast.FunctionDef):
@@ -168,6 +174,8 @@ class IntervalInterp:
             env.update(base)
         elif isinstance(s, ast.With):
             self.block(s.body, env)
+        elif isinstance(s, ast.FunctionDef):
+            self.local_funcs[s.name] = s      # a closure: interpreted where it is called, reading the enclosing values
 
     def _none_test(self, test, env):
         """`x is None` / `x is not None` for a local known to hold None (an option left at its None default)"""
@@ -208,8 +216,12 @@ class IntervalInterp:
                 del env[k]
             env[t.id] = v
         elif isinstance(t, (ast.Tuple, ast.List)):
+            if v.items is not None and len(v.items) == len(t.elts) and not any(isinstance(e, ast.Starred) for e in t.elts):
+                for e, x in zip(t.elts, v.items):
+                    self.bind(e, x, env)
+                return
             for e in t.elts:
-                self.bind(e, AV(), env)
+                self.bind(e.value if isinstance(e, ast.Starred) else e, AV(), env)
 
     def bind_iter(self, target, iter_node, it, env):
         # for a, b in zip(X, Y): element-wise
@@ -227,6 +239,7 @@ class IntervalInterp:
 
     # ------------------------------------------------------------------ refinement
     def refine(self, test, env, pol):
+        test = self._desugar_test(test)
         if isinstance(test, ast.UnaryOp) and isinstance(test.op, ast.Not):
             return self.refine(test.operand, env, not pol)
         if isinstance(test, ast.BoolOp):
@@ -347,7 +360,9 @@ class IntervalInterp:
             if isinstance(n.value, (int, float)):
                 return AV(n.value, n.value, "scalar")
             if isinstance(n.value, str):
-                return AV(kind="str")
+                return AV(kind="str", text=n.value)
+            if n.value is None:
+                return AV(kind="none")
             return AV()
         if isinstance(n, ast.Name):
             if n.id in env and isinstance(env[n.id], AV):
@@ -382,7 +397,7 @@ class IntervalInterp:
                 es = vs[0].size
                 for v in vs[1:]:
                     es = hull(es, v.size)
-            return AV(out.lo, out.hi, "list", out.member, AV(len(vs), len(vs), "scalar"), "", es)
+            return AV(out.lo, out.hi, "list", out.member, AV(len(vs), len(vs), "scalar"), "", es, items=vs)
         if isinstance(n, ast.Subscript):
             b = self.ev(n.value, env)
             self.ev(n.slice, env)
@@ -390,13 +405,15 @@ class IntervalInterp:
                 return b.copy(size=None)
             return self.element(b)
         if isinstance(n, ast.JoinedStr):
-            self._fstring(n, env, None)
-            return AV(kind="str")
+            return AV(kind="str", parts=self._fstring(n, env, None))
         if isinstance(n, ast.IfExp):
             self.ev(n.test, env)
             if all(isinstance(x, ast.Constant) and isinstance(x.value, str) for x in (n.body, n.orelse)):
                 return AV(kind="str", member=frozenset((n.body.value, n.orelse.value)))   # one of two literal texts
-            return hull(self.ev(n.body, env), self.ev(n.orelse, env))
+            e1, e2 = dict(env), dict(env)
+            self.refine(n.test, e1, True)
+            self.refine(n.test, e2, False)
+            return hull(self.ev(n.body, e1), self.ev(n.orelse, e2))
         if isinstance(n, ast.Compare):
             self.ev(n.left, env)
             for c in n.comparators:
@@ -462,7 +479,13 @@ class IntervalInterp:
             elif args and isinstance(args[0], ast.Name) and isinstance(env.get("$str:" + args[0].id), list):
                 self._emit(env["$str:" + args[0].id], n)
             elif args:
-                self.sites.append(Site(n, self.fname, [("text", ast.unparse(args[0]))], ""))
+                v = self.ev(args[0], env)
+                if v.parts is not None:
+                    self._emit(v.parts, n)          # a command built elsewhere (helper return, template.format(...)) and sent here
+                elif v.text is not None:
+                    self._emit([("text", v.text)], n)
+                else:
+                    self.sites.append(Site(n, self.fname, [("text", ast.unparse(args[0]))], ""))
             return AV(kind="str")
         if base is not None and isinstance(base, ast.Name) and base.id == "self" and n.func.attr in self.summaries:
             for a in args:
@@ -474,14 +497,42 @@ class IntervalInterp:
             callee = self.functions[n.func.attr]
         elif isinstance(n.func, ast.Name) and n.func.id in self.functions:
             callee = self.functions[n.func.id]
-        if callee is not None and self.depth < 2 and not n.keywords:
-            # helper of the same module: interpreted with the caller's argument values
+        closure = False
+        if callee is None and isinstance(n.func, ast.Name) and n.func.id in self.local_funcs and n.func.id not in env:
+            callee, closure = self.local_funcs[n.func.id], True
+        if callee is not None and self.depth < 4 and not any(k.arg is None for k in n.keywords) and callee.args.vararg is None and callee.args.kwarg is None:
+            # helper of the same module (or a closure of this function): interpreted with the caller's argument values
             sub = IntervalInterp(self.consts, self.summaries, self.query_names, self.functions, self.depth + 1)
-            params = [a.arg for a in callee.args.args if a.arg not in ("self", "cls")]
-            senv = {p_: AV() for p_ in params}
-            for p_, a in zip(params, args):
-                senv[p_] = self.ev(a, env)
+            sub.operator_names = getattr(self, "operator_names", ())
+            params = [a.arg for a in callee.args.posonlyargs + callee.args.args if a.arg not in ("self", "cls")]
+            senv = dict(env) if closure else {}
+            senv.pop("__dead__", None)
+            for p_ in params + [a.arg for a in callee.args.kwonlyargs]:
+                senv[p_] = AV()
+            pos_defaults = callee.args.defaults
+            for p_, d in zip(params[len(params) - len(pos_defaults):] if pos_defaults else [], pos_defaults):
+                senv[p_] = self.ev(d, {})
+            for a_, d in zip(callee.args.kwonlyargs, callee.args.kw_defaults):
+                if d is not None:
+                    senv[a_.arg] = self.ev(d, {})
+            actual = []
+            for a in args:
+                if isinstance(a, ast.Starred):
+                    sv = self.ev(a.value, env)
+                    if sv.items is None:
+                        actual = None
+                        break
+                    actual.extend(sv.items)
+                else:
+                    actual.append(self.ev(a, env))
+            if actual is not None:
+                for p_, v_ in zip(params, actual):
+                    senv[p_] = v_
+                for k in n.keywords:
+                    if k.arg in senv:
+                        senv[k.arg] = self.ev(k.value, env)
             sub.fname = callee.name
+            sub.local_funcs = dict(self.local_funcs) if closure else {}
             sub.block(callee.body, senv)
             # commands sent by the helper are sent with the caller's values
             self.sites.extend(sub.sites)
@@ -493,6 +544,12 @@ class IntervalInterp:
                     out = hull(out, r)
                 return out
             return AV()
+        if last == "format" and base is not None and not n.keywords:
+            b = self.ev(base, env)
+            if b.kind == "str" and b.text is not None:
+                parts = self._format_parts(b.text, args, env, n)
+                if parts is not None:
+                    return AV(kind="str", parts=parts)
         if last == "clip":
             if base is not None and not name.startswith(("np.", "numpy.")):
                 x = self.ev(base, env)
@@ -600,6 +657,69 @@ class IntervalInterp:
             self._emit(parts, query_node)
         return parts
 
+    def _format_parts(self, template, args, env, node):
+        """'<template>'.format(a, b) as command parts (auto-numbered / indexed fields with optional format spec)"""
+        import string
+        parts, auto = [], 0
+        try:
+            parsed = list(string.Formatter().parse(template))
+        except ValueError:
+            return None
+        for lit, name, spec, conv in parsed:
+            if lit:
+                parts.append(("text", lit))
+            if name is None:
+                continue
+            if conv is not None or (spec and "{" in spec):
+                return None
+            if name == "":
+                i, auto = auto, auto + 1
+            elif name.isdigit():
+                i = int(name)
+            else:
+                return None
+            if i >= len(args) or isinstance(args[i], ast.Starred):
+                return None
+            val = self.ev(args[i], env)
+            spec = spec or ""
+            if spec and spec[-1] in "feEgGd%" and val.kind == "array":
+                self.fmt_issues.append((node, ast.unparse(args[i]), spec, node))
+            if val.kind == "str" and val.member and all(isinstance(m, str) for m in val.member) and not spec:
+                parts.append(("alts", sorted(val.member)))
+            else:
+                parts.append(("slot", ast.unparse(args[i]), val, spec))
+        return parts
+
+    def _desugar_test(self, test):
+        """any(p(x) for x in (a, b)) -> p(a) or p(b);  operator.lt(a, b) -> a < b   (exact rewrites of a guard expression)"""
+        if isinstance(test, ast.Call) and isinstance(test.func, ast.Name) and test.func.id in ("any", "all") and len(test.args) == 1 and not test.keywords \
+                and isinstance(test.args[0], (ast.GeneratorExp, ast.ListComp)) and len(test.args[0].generators) == 1:
+            g = test.args[0].generators[0]
+            if not g.ifs and isinstance(g.iter, (ast.Tuple, ast.List)) and 1 <= len(g.iter.elts) <= 8:
+                terms = []
+                for row in g.iter.elts:
+                    sub = {}
+                    if isinstance(g.target, ast.Name):
+                        sub[g.target.id] = row
+                    elif isinstance(g.target, (ast.Tuple, ast.List)) and isinstance(row, (ast.Tuple, ast.List)) and len(row.elts) == len(g.target.elts) \
+                            and all(isinstance(t_, ast.Name) for t_ in g.target.elts):
+                        sub = {t_.id: r_ for t_, r_ in zip(g.target.elts, row.elts)}
+                    else:
+                        return test
+                    terms.append(self._desugar_test(_subst_names(test.args[0].elt, sub)))
+                new = ast.BoolOp(op=ast.Or() if test.func.id == "any" else ast.And(), values=terms) if len(terms) > 1 else terms[0]
+                return ast.copy_location(new, test)
+        if isinstance(test, ast.Call) and isinstance(test.func, ast.Attribute) and test.func.attr in ("any", "all") and not test.args:
+            inner = self._desugar_test(test.func.value)
+            if inner is not test.func.value:
+                return ast.copy_location(ast.Call(func=ast.Attribute(value=inner, attr=test.func.attr, ctx=ast.Load()), args=[], keywords=[]), test)
+        if isinstance(test, ast.Call) and isinstance(test.func, ast.Attribute) and isinstance(test.func.value, ast.Name) \
+                and test.func.value.id in getattr(self, "operator_names", ()) and len(test.args) == 2 and not test.keywords:
+            op = {"lt": ast.Lt, "le": ast.LtE, "gt": ast.Gt, "ge": ast.GtE, "eq": ast.Eq, "ne": ast.NotEq}.get(test.func.attr)
+            if op is not None:
+                return ast.copy_location(ast.Compare(left=test.args[0], ops=[op()], comparators=[test.args[1]]), test)
+        return test
+
     def _emit(self, parts, query_node):
         """one site per combination of the literal alternatives interpolated into the command text"""
         combos = [[]]
@@ -616,6 +736,17 @@ class IntervalInterp:
                 else:
                     merged.append(p)
             self.sites.append(Site(query_node, self.fname, merged, ""))
+
+
+def _subst_names(node, sub):
+    """copy of the expression with the given names replaced by expressions"""
+    class R(ast.NodeTransformer):
+        def visit_Name(self, n_):
+            if isinstance(n_.ctx, ast.Load) and n_.id in sub:
+                return _load(sub[n_.id])
+            return n_
+    new = R().visit(_load(node))
+    return ast.fix_missing_locations(new)
 
 
 def _callname(n):
